@@ -941,5 +941,93 @@ META['declined'] = [
     for _d in META['declined']]
 
 
-RULES = [update_fixpoint, bounds_honoured, index_edit, c17_coating_media, c01_init_stores, c01_pickup, operand_chain, apply_result, push_before_run, undo_updates, merit, scale_inverse,
+def not_worse(ctx):
+    """'that objective is not worse than at the start': scipy guarantees no
+    descent (bounded Powell / COBYQA defaults, SLSQP stopped early, annealing,
+    differential evolution).  Necessary and, with the FINAL-APPLY rule,
+    sufficient structure: every front end compares the objective of the
+    solution with the objective of the starting vector and falls back to the
+    start, before the lens is set from result.x."""
+    from ..paths import paths, annotate, call_attr
+    P = ctx.P
+    res = Result('NOT-WORSE', 'every optimize() compares the solution with '
+                 'the start and keeps the start when the solution is worse, '
+                 'before the variables are written from result.x')
+    h = P.classes['OptimizerGeneric'].methods.get('_keep_start_if_better')
+    helper_ok = False
+    if h is not None:
+        res.saw(h)
+        src = unparse(h.node, 100000)
+        evals0 = any(isinstance(c_, ast.Call) and
+                     unparse(c_.func) == 'self._fun' and
+                     [unparse(a_) for a_ in c_.args] == [h.params[1]]
+                     for c_ in ast.walk(h.node))
+        evalsr = any(isinstance(c_, ast.Call) and
+                     unparse(c_.func) == 'self._fun' and
+                     [unparse(a_) for a_ in c_.args] ==
+                     [h.params[0] + '.x'] for c_ in ast.walk(h.node))
+        restores = False
+        for n_ in ast.walk(h.node):
+            if isinstance(n_, ast.If):
+                t = n_.test
+                worse = (isinstance(t, ast.UnaryOp) and isinstance(
+                    t.op, ast.Not) and isinstance(t.operand, ast.Compare) and
+                    isinstance(t.operand.ops[0], (ast.LtE, ast.Lt))) or (
+                    isinstance(t, ast.Compare) and
+                    isinstance(t.ops[0], (ast.Gt, ast.GtE)))
+                sets = any(isinstance(st, ast.Assign) and
+                           unparse(st.targets[0]) == h.params[0] + '.x' and
+                           h.params[1] in unparse(st.value)
+                           for st in n_.body)
+                if worse and sets:
+                    restores = True
+        helper_ok = evals0 and evalsr and restores
+    n = 0
+    for cn in ('OptimizerGeneric', 'LeastSquares', 'DualAnnealing',
+               'DifferentialEvolution'):
+        f = P.classes[cn].methods.get('optimize')
+        if f is None:
+            raise AnalysisError(f'{cn}.optimize not found')
+        res.saw(f)
+        n += 1
+        bad = None
+        for p in annotate(P, f, paths(f, loop_iters=(1,))):
+            if p.exit == 'raise':
+                continue
+            solve = [i for i, e in enumerate(p.events) if e.kind == 'call'
+                     and call_attr(e) in ('minimize', 'least_squares',
+                                          'dual_annealing',
+                                          'differential_evolution')]
+            keep = [i for i, e in enumerate(p.events) if e.kind == 'call' and
+                    call_attr(e) == '_keep_start_if_better' and
+                    [unparse(a_) for a_ in e.node.args] == ['result', 'x0']]
+            upd = [i for i, e in enumerate(p.events) if e.kind == 'call' and
+                   call_attr(e) == 'update' and 'result.x' in unparse(e.node)]
+            if not solve:
+                continue
+            if not (keep and upd and solve[-1] < keep[0] < upd[0]):
+                bad = p
+        if bad is None and helper_ok:
+            res.ok(f'{cn}.optimize: start kept when the solution is worse')
+        else:
+            res.fail(ctx.finding(
+                'NOT-WORSE', f, f.node,
+                f'{cn}.optimize writes result.x into the lens without '
+                f'comparing its objective with the start: scipy does not '
+                f'guarantee a descent (Cooke triplet, Powell with defaults: '
+                f'merit 0.05359 -> 0.05672; COBYQA -> 0.4922; SLSQP, '
+                f'maxiter=5: 25.05 -> 31.39)',
+                construct=f'{cn}: no comparison with the start'))
+    return res
+
+
+# META update: declined clause 'objective not worse' re-worded
+META['declined'] = [
+    'descent inside scipy (that the lens returned is never worse than the '
+    'start is decided structurally: NOT-WORSE)'
+    if _d.startswith('objective not worse') else _d
+    for _d in META['declined']]
+
+
+RULES = [not_worse, update_fixpoint, bounds_honoured, index_edit, c17_coating_media, c01_init_stores, c01_pickup, operand_chain, apply_result, push_before_run, undo_updates, merit, scale_inverse,
          get_set_symmetry, var_dispatch, bounds_units]
